@@ -14,6 +14,14 @@
 //!   BA <bitpos> <len>    every pattern of <len> bits whose first bit is set, laid at <bitpos>
 //!                        (patterns reaching beyond the frame are skipped)
 //!                                         -> n=<k> REJECT=<r> SAME=<s> DIFFERENT=<d> [first=<pat>]
+//!   X <hexmask>          xor a whole-frame mask (an error OUTSIDE the classes of the property: many
+//!                        scattered flips, replaced octets, long bursts; the generator keeps only masks
+//!                        after which the reference CRC of the frame no longer matches) and decode
+//!                                                                  -> REJECT | SAME | DIFFERENT
+//!                        (no oracle verdict: the property promises nothing for these errors; the model
+//!                         says REJECT because the frame check fails, so an acceptance by the real code
+//!                         shows up as a broken correspondence: the decoder would not be checking the
+//!                         CRC of what it received)
 //!   T <hex>              octets that follow the frame in the same arrival (for this and the following
 //!                        ops of the case); decodes frame ++ these      -> SAME <octets consumed> | REJECT | DIFFERENT <n>
 //! A panic of the decoder counts as REJECT here (the PDU was not accepted; panics are property
@@ -142,6 +150,19 @@ pub fn run(ops: &str, out: &mut impl Write, orc: &mut impl Write) {
                     writeln!(out, "{}", o.s()).unwrap();
                     if o != Obs::Same {
                         writeln!(orc, "FAIL C15 case={id} op={i} the unaltered encoding {} is not accepted as the PDU it encodes ({})", t[1], o.s()).unwrap();
+                    }
+                }
+                "X" => {
+                    let mask = unhex(t[1]);
+                    let mut bad: Vec<u8> = frame.iter().zip(mask.iter()).map(|(a, b)| a ^ b).collect();
+                    bad.extend(&trailing);
+                    let (o, panicked) = decode_obs(&bad, &original);
+                    writeln!(out, "{}", o.s()).unwrap();
+                    if panicked {
+                        writeln!(orc, "NOTE C06 case={id} op={i} decode panicked on {}", hex(&bad)).unwrap();
+                    }
+                    if o != Obs::Reject {
+                        writeln!(orc, "NOTE C15 case={id} op={i} a frame whose CRC does not match its octets was accepted ({}): {}", o.s(), hex(&bad)).unwrap();
                     }
                 }
                 "T" => {
@@ -593,6 +614,59 @@ fn gen_errors(w: &mut impl Write, stats: &mut Stats, rng: &mut Rng, tier: &str, 
     }
 }
 
+/// errors outside the property's classes that break the CRC: the decoder must still reject them
+fn gen_other(w: &mut impl Write, stats: &mut Stats, rng: &mut Rng, tier: &str, cid: &str, frame: &[u8]) {
+    let n = frame.len();
+    writeln!(w, "CASE {cid}_other len={n}").unwrap();
+    writeln!(w, "F {}", hex(frame)).unwrap();
+    let k = if tier == "thorough" { 1500 } else if n <= 400 { 120 } else { 40 };
+    for _ in 0..k {
+        let mut mask = vec![0u8; n];
+        match rng.below(4) {
+            0 => {
+                // 3..10 scattered flips
+                for _ in 0..3 + rng.below(8) {
+                    let b = 32 + rng.below((n * 8 - 32) as u64) as usize;
+                    mask[b / 8] ^= 0x80 >> (b % 8);
+                }
+            }
+            1 => {
+                // a block of 1..4 octets replaced
+                let len = 1 + rng.below(4) as usize;
+                let off = 4 + rng.below((n - 4) as u64) as usize;
+                for j in off..(off + len).min(n) {
+                    mask[j] = rng.next() as u8;
+                }
+            }
+            2 => {
+                // two neighbouring octets exchanged
+                let off = 4 + rng.below((n - 5) as u64) as usize;
+                let x = frame[off] ^ frame[off + 1];
+                mask[off] = x;
+                mask[off + 1] = x;
+            }
+            _ => {
+                // a long burst (17..64 bits)
+                let len = 17 + rng.below(48) as usize;
+                let b0 = 32 + rng.below((n * 8 - 32) as u64) as usize;
+                for b in b0..(b0 + len).min(n * 8) {
+                    if b == b0 || rng.chance(1, 2) {
+                        mask[b / 8] ^= 0x80 >> (b % 8);
+                    }
+                }
+            }
+        }
+        let bad: Vec<u8> = frame.iter().zip(mask.iter()).map(|(a, b)| a ^ b).collect();
+        let crc_matches = ref_crc(&bad[..n - 2]) == u16::from_be_bytes([bad[n - 2], bad[n - 1]]);
+        if crc_matches {
+            stats.inc("err_other_skipped_crc_still_matches");
+            continue;
+        }
+        writeln!(w, "X {}", hex(&mask)).unwrap();
+        stats.inc("err_other_classes");
+    }
+}
+
 /// the frame followed by other octets in the same arrival: the receiver must cut the frame by its header
 fn gen_trailing(w: &mut impl Write, stats: &mut Stats, rng: &mut Rng, tier: &str, cid: &str, frame: &[u8]) {
     let nbits = frame.len() * 8;
@@ -715,6 +789,7 @@ pub fn gen(seed: u64, tier: &str, w: &mut impl Write, stats: &mut Stats) {
                 let cid = format!("p{idx}_{}_{}w{width}_s{sub:x}", KIND_NAMES[kind], if large { "L" } else { "S" });
                 gen_errors(w, stats, &mut r, tier, &cid, &frame);
                 gen_trailing(w, stats, &mut r, tier, &cid, &frame);
+                gen_other(w, stats, &mut r, tier, &cid, &frame);
                 // the same PDU without the CRC: only the delimitation of the frame is compared
                 let q = {
                     let mut q = p.clone();
